@@ -131,6 +131,8 @@ def expected_trace(case):
             names += ['transpose', 'add', 'eigh', 'getitem']
         elif op == 'eigh_fun':
             names += ['transpose', 'add', 'eigh', 'getitem', 'getitem', 'sin', 'mul', 'transpose', 'dot']
+        elif op == 'eig_val':
+            names += ['eig', 'getitem', 'real']
         elif op == 'svd_s':
             names += ['svd', 'getitem']
         elif op == 'lu':
